@@ -1162,6 +1162,7 @@ static int32 tls13WriteCertificateVerify(ssl_t *ssl, sslBuf_t *out)
     {
         psTraceErrr("Failed to negotiate CertificateVerify sig alg\n");
         ssl->err = SSL_ALERT_HANDSHAKE_FAILURE;
+        psDynBufUninit(&cvBuf);
         return SSL_SEND_RESPONSE;
     }
     psTracePrintTls13SigAlg(INDENT_HS_MSG,
@@ -1179,6 +1180,7 @@ static int32 tls13WriteCertificateVerify(ssl_t *ssl, sslBuf_t *out)
         rc = tls13TranscriptHashSnapshot(ssl, trHash);
         if (rc < 0)
         {
+            psDynBufUninit(&cvBuf);
             return rc;
         }
 
@@ -1208,6 +1210,7 @@ static int32 tls13WriteCertificateVerify(ssl_t *ssl, sslBuf_t *out)
                 &ssl->sec.tls13CvSigLen);
         if (rc < 0)
         {
+            psDynBufUninit(&cvBuf);
             return rc;
         }
 
@@ -1254,6 +1257,7 @@ static int32 tls13WriteCertificateVerify(ssl_t *ssl, sslBuf_t *out)
                 psFree(ssl->sec.tls13CvSig, ssl->hsPool);
                 psFree(ssl->hsPool, tbs);
                 psTraceErrr("Could not verify own sig!!\n");
+                psDynBufUninit(&cvBuf);
                 return rc;
             }
 # endif
